@@ -148,7 +148,16 @@ def gen_case(rng, tier, g):
             steps.insert(rng.randint(0, len(steps)),
                          ['CLEARCACHE', rng.randrange(nviews),
                           rng.choice([0, 0, 1])])
-    if name != 'fromdicts-gen' and rng.random() < 0.15:
+    if name != 'fromdicts-gen' and rng.random() < 0.08 and rec.nsrc > 0:
+        # re-entrancy: while some iterator is in the middle of a step (its
+        # source is producing row i), a complete pass over the view is made
+        # from inside that step
+        si = rng.randrange(rec.nsrc)
+        n = len(tables[si]) - 1
+        steps.insert(rng.randint(0, max(0, len(steps) // 2)),
+                     ['HOOK', si, rng.randint(0, n + 1),
+                      rng.randrange(nviews)])
+    elif name != 'fromdicts-gen' and rng.random() < 0.15:
         # transient source failure: one pass over a source raises instead of
         # row i; the iterator that meets it fails, every other iterator and
         # every later pass must be unaffected (fault-injecting configuration,
@@ -224,7 +233,8 @@ def run_case(case):
                              wrap_sources=case.get('wrap', False))
             if case.get('fork'):
                 views = views[:1] + _forks(e, w, views[0], case['fork'])
-            faulty = any(op[0] == 'ARM' for op in case['steps'])
+            faulty = any(op[0] in ('ARM', 'HOOK') for op in case['steps'])
+            nested = []
             sch = Sched(views, expected, log=log, items=is_items(stack),
                         expect_fault=_is_injected if faulty else None)
 
@@ -242,8 +252,19 @@ def run_case(case):
                                     w.s[op[1]].arm(op[2], passes=op[3],
                                                    kind=op[4])
                                     log.add('step', op)
+                            elif op[0] == 'HOOK':
+                                if op[1] < len(w.s) and \
+                                        hasattr(w.s[op[1]], 'hook'):
+                                    w.s[op[1]].hook = (
+                                        op[2], _nested_pass(sch, op[3],
+                                                            nested))
+                                    log.add('step', op)
                             else:
                                 sch.step(op)
+                                if nested:
+                                    # a violation seen by the nested pass
+                                    # (kept out of petl's own handlers)
+                                    raise nested[0]
                         # faults stop before the fresh passes
                         for s in w.s:
                             if hasattr(s, 'disarm'):
@@ -265,6 +286,9 @@ def run_case(case):
                 if sch.concurrent:
                     probes['two-midway-at-once'] = 1
                 nsteps = sch.nsteps
+                for k in ('nested-pass-inside-a-step', 'clearcache-called'):
+                    if sch.probes.get(k):
+                        probes[k] = 1
                 if sch.max_live >= 3:
                     probes['three-live-iterators'] = 1
                 if concurrent:
@@ -290,6 +314,19 @@ def run_case(case):
     return outcome('ok', digest=log.hexdigest(), steps=nsteps,
                    states=sorted(states), nontrivial=nontrivial,
                    probes=probes, extra={'group': group})
+
+
+def _nested_pass(sch, vi, found):
+    def run():
+        if vi < len(sch.views) and sch.views[vi] is not None:
+            try:
+                sch.fresh(vi, label='nested%d' % len(found))
+                sch.probe('nested-pass-inside-a-step')
+            except Violation as v:
+                v.msg = 'pass made from inside a step of another ' \
+                    'iterator: ' + v.msg
+                found.append(v)
+    return run
 
 
 def _forks(e, w, base, fork):
